@@ -375,40 +375,8 @@ fn check_faulty_prefix(st: &mut St, prefix: &[u8], hdr: Option<&[u8]>, slot: usi
 
 // ------------------------------------------------------ resynchronisation sweep
 
-/// Lexeme alphabet of the sweep: headers that take strings / blocks, quote characters, block
-/// headers (also with zero-padded and zero length fields), payload bytes and separators.
-const SIGMA_RESYNC: &[&[u8]] = &[
-    b"A:S ", b"A:K ", b"A:N 5,", b"A:M ", b"A:L ", b"A:B", b":E", b"'", b"\"", b"#11", b"#12", b"#203", b"#3002", b"#10", b"x", b"\n", b";",
-    b",", b" ",
-];
-
-/// End (offset behind the terminator) of the first message of `x` as the *parser* finds it,
-/// if every unit of that message is accepted.
-fn first_message_end(x: &[u8]) -> Option<usize> {
-    use microscpi::parser;
-    use microscpi::Interface;
-    let root = mc::ifaces::Main.root_node();
-    let mut header = root;
-    let mut input = x;
-    loop {
-        match parser::parse(root, header, input) {
-            Ok((rest, None)) => return Some(x.len() - rest.len()),
-            Ok((rest, Some(call))) => {
-                if call.terminated {
-                    return Some(x.len() - rest.len());
-                }
-                if let Some(h) = call.header {
-                    header = h;
-                }
-                input = rest;
-                if input.is_empty() {
-                    return None;
-                }
-            }
-            Err(_) => return None,
-        }
-    }
-}
+use mc::lex::SIGMA_PAYLOAD as SIGMA_RESYNC;
+use mc::mainx::first_message_end;
 
 #[derive(Default)]
 struct Rs {
